@@ -570,7 +570,7 @@ fn main() {
 			twin_steps: 0,
 			late_on_fork: 0,
 		};
-		let deadline = run.tier.pick(110.0, 800.0);
+		let deadline = run.tier.pick(300.0, 1200.0);
 		for i in 0..total {
 			if i as usize % n != shard {
 				continue;
